@@ -212,6 +212,41 @@ def slice_site(ta):
     return pf, name, idx, len(lst)
 
 
+def kind_code(ta):
+    """replacement source of the same syntactic category as `ta`, with children of its own; the only handler of a try
+    statement is replaced by one of the other kind (Try <-> TryStar)"""
+    c = ta.__class__
+    if c is ast.ExceptHandler:
+        p = ta.f.parent.a
+        star = p.__class__.__name__ == 'TryStar'
+        if len(p.handlers) == 1:
+            star = not star
+        return ('except* zz as yy:\n    ww' if star else 'except zz as yy:\n    ww')
+    if c is ast.match_case:
+        return 'case [zz, yy]:\n    ww'
+    if c is ast.comprehension:
+        return 'for zz in [yy, ww]'
+    if c is ast.arg:
+        return 'zz'
+    if c is ast.arguments:
+        return 'zz, yy=ww'
+    if c is ast.keyword:
+        return 'kk=[zz, yy]'
+    if c is ast.withitem:
+        return '[zz, yy] as ww'
+    if c is ast.alias:
+        return 'zz as yy'
+    if c is ast.Slice:
+        return 'zz:yy'
+    if isinstance(ta, ast.stmt):
+        return 'if zz:\n    yy'
+    if isinstance(ta, ast.pattern):
+        return '[zz, yy]'
+    if isinstance(ta, ast.type_param):
+        return 'ZZ: int'
+    return '[zz, yy]'
+
+
 class ActionRejected(Exception):
     pass
 
@@ -326,6 +361,7 @@ def run_case(case, FST, oracle=True):
         mA, mB = [], []
         did_send = None
         cur_replaced = cur_removed = False
+        cur_new = None
         follow = 'unknown'
         for act in acts:
             if act[0] == 'send':
@@ -360,7 +396,9 @@ def run_case(case, FST, oracle=True):
                 follow = _following(wroot.a, a, all_, case.get('back', False))
             try:
                 if op == 'replace':
-                    tf.replace(act[2], norm=True)
+                    ret = tf.replace(kind_code(ta) if act[2] == '@kind' else act[2], norm=True)
+                    if ta is a:
+                        cur_new = getattr(ret, 'a', None)      # the single node the current node was replaced with
                 elif op in ('delslice', 'putslice'):
                     site = slice_site(ta)
                     if site is None:
@@ -388,6 +426,12 @@ def run_case(case, FST, oracle=True):
                 fo = getattr(o, 'f', None)
                 if i in before_f and fo is not None and before_f[i] is not None and num.fid.get(id(fo)) != before_f[i]:
                     res['moved'] = True        # an existing AST was re-homed into another FST (e.g. BoolOp collapse)
+            st = [t_now]
+            while st:
+                t = st.pop()
+                if t[0] >= old_next and any(kk[0] < old_next for kk in t[4]):
+                    res['moved'] = True        # a fresh AST adopted existing children (in-place Try <-> TryStar switch)
+                st.extend(t[4])
             if op in ('delslice', 'putslice'):
                 res['idealA'] = False                      # slice edit: the model follows the observed tree
                 mA.append(['settree', t_now, num.next])
@@ -414,7 +458,7 @@ def run_case(case, FST, oracle=True):
                 if not leaving:
                     acts = acts or [['send', False]]
             if oracle and a is not None and not leaving and acts:
-                expect = _make_expect(case, root, f, a, did_send, cur_replaced, cur_removed, any_send_true, acts, wroot, follow)
+                expect = _make_expect(case, root, f, a, did_send, cur_replaced, cur_removed, any_send_true, acts, wroot, follow, cur_new, res.get('moved'))
             elif oracle and a is not None and leaving and did_send is True and not case.get('scope'):
                 is_gen_root = f is wroot or id(f) in nested_roots
                 if on == 'both' and not case.get('recurse', True):
@@ -540,12 +584,21 @@ def _following(wroot_ast, cur_ast, all_, back):
     return [n for n in order[idx + 1:] if id(n) not in inside]     # candidates; the first one still in the tree afterwards
 
 
-def _make_expect(case, root, f, a, did_send, cur_replaced, cur_removed, any_send_true, acts, wroot, follow='unknown'):
+def _make_expect(case, root, f, a, did_send, cur_replaced, cur_removed, any_send_true, acts, wroot, follow='unknown', cur_new=None, moved=False):
     """What must follow the entry yield of `f` given what the consumer did to it (only single-purpose scripts at this
     yield: the checks apply when the only tree change at this yield was on the current node, or none)."""
     muts = [x for x in acts if x[0] != 'send']
-    if any(x[1] != 'cur' for x in muts) or len(muts) > 1:
+    if len(muts) > 1:
         return None
+    sibling_edit = False
+    if muts and muts[0][1] != 'cur':
+        # a replace / remove of a SIBLING (of this node or of its parent): this node is untouched, its children are still
+        # to be walked (only for single-node edits and while the node is still in the tree)
+        if muts[0][0] not in ('replace', 'remove') or muts[0][1] not in ('prev', 'next', 'pprev', 'pnext') or cur_replaced or cur_removed:
+            return None
+        if id(a) not in _reachable(root.a) or moved:
+            return None             # gone, or re-homed into the parent's FST by a collapse (finding C15-F3)
+        sibling_edit = True
     if case.get('scope'):
         # with scope=True only the send(True) rule is checked (what is walked without it depends on the scope rules,
         # which the oracle does not know); this includes the first iterator of a comprehension, yielded by walk_Comp
@@ -563,8 +616,11 @@ def _make_expect(case, root, f, a, did_send, cur_replaced, cur_removed, any_send
         reach = _reachable(root.a)      # the removal may have taken other subtrees with it (Raise.exc -> cause, ...)
         follow = next((n for n in follow if id(n) in reach), None)
         return {'kind': 'removed', 'follow': follow, 'f': f}
-    na = f.a
-    if na is None or _has_fstring(na):
+    # the node now at this position: what the single-item replace returned, else the untouched AST (NOT `f.a`: the
+    # walk docs promise that the FST of a replaced node stays; if it does not, the children are not walked and that is
+    # exactly what this expectation reports)
+    na = cur_new if (cur_replaced and cur_new is not None) else (a if sibling_edit else f.a)
+    if na is None or _has_fstring(na) or id(na) not in _reachable(root.a):
         return None
     desc = _vis_desc(na, all_, back)
     if did_send is False:
